@@ -770,6 +770,10 @@ class ExprMixin(object):
                 if sym in ("==", "!="):
                     if isinstance(a, Term) and isinstance(b, Term) and a == b:
                         return Const(sym == "==")
+                    if getattr(self, "join_eq", False):
+                        r_ = self.joined_strings_equal(st, a, b)
+                        if r_ is not None:
+                            return r_ if sym == "==" else mk_not(r_)
                     r = App("streq", tuple(sorted((a, b), key=lambda t: t.sortkey())))
                     return r if sym == "==" else mk_not(r)
             pa = self.to_poly(st, a, node, module)
@@ -826,6 +830,65 @@ class ExprMixin(object):
                 r = mk_and(cs)
                 return r if sym == "==" else mk_not(r)
         raise AnalysisError("E5.cmp", "comparison of %r and %r" % (a, b), node, module)
+
+    def joined_strings_equal(self, st, a, b):
+        """Equality of two strings built the same way from optional fields (prefix + separator-joined
+        items, each present under a guard): when no field text contains the separator and the texts
+        possible at different positions are disjoint, the strings are equal exactly when, position by
+        position, both fields are absent or both present with equal text.  None when the shape does
+        not apply."""
+        def parts(t):
+            pre, items, sep = [], None, None
+            xs = list(t.args) if isinstance(t, App) and t.op == "cat" else [t]
+            for x in xs:
+                if isinstance(x, App) and x.op == "join":
+                    if items is not None:
+                        return None
+                    sep = x.args[0]
+                    items = []
+                    for it in x.args[1:]:
+                        if not (isinstance(it, App) and it.op == "item"):
+                            return None
+                        items.append((it.args[0], it.args[1]))
+                elif items is None:
+                    pre.append(x)
+                else:
+                    return None
+            if items is None or not (isinstance(sep, Const) and isinstance(sep.v, str) and sep.v):
+                return None
+            return pre, items, sep.v
+
+        pa, pb = parts(a), parts(b)
+        if pa is None or pb is None or pa[2] != pb[2] or len(pa[1]) != len(pb[1]) or len(pa[0]) != len(pb[0]):
+            return None
+
+        def texts(v):
+            if isinstance(v, Const) and isinstance(v.v, str):
+                return {v.v}
+            if isinstance(v, Fin) and all(isinstance(x, str) for x in v.table.values()):
+                return set(v.table.values())
+            return None
+
+        sets = []
+        for (ga, va), (gb, vb) in zip(pa[1], pb[1]):
+            ta, tb = texts(va), texts(vb)
+            if ta is None or tb is None or any(pa[2] in x for x in ta | tb):
+                return None
+            sets.append(ta | tb)
+        for i in range(len(sets)):
+            for j in range(i + 1, len(sets)):
+                if sets[i] & sets[j]:
+                    return None
+        conj = []
+        for x, y in zip(pa[0], pb[0]):
+            conj.append(TRUE if same(x, y) else self.compare_sym(st, "==", x, y, None, None, False))
+        for (ga, va), (gb, vb) in zip(pa[1], pb[1]):
+            if same(ga, gb) and same(va, vb):
+                continue
+            both = mk_and([ga, gb, self.compare_sym(st, "==", va, vb, None, None, False)])
+            neither = mk_and([mk_not(ga), mk_not(gb)])
+            conj.append(mk_or([both, neither]))
+        return mk_and(conj) if conj else TRUE
 
     def identity(self, st, a, b, node, module):
         if isinstance(b, Const) and b.v is None:
